@@ -538,7 +538,15 @@ impl<'a> Builder<'a> {
                 0 => QN::new(None, ATTR_LOCALS[self.g.pick(ATTR_LOCALS.len())]),
                 1 => {
                     self.feat("prefixed-attr");
-                    QN { prefix: Some(in_scope_prefixes[self.g.pick(in_scope_prefixes.len())].clone()), local: ATTR_LOCALS[self.g.pick(ATTR_LOCALS.len())].to_string() }
+                    let prefix = in_scope_prefixes[self.g.pick(in_scope_prefixes.len())].clone();
+                    // `p:xmlns` is an ordinary attribute: only the *prefix* xmlns (or the whole name xmlns) declares
+                    let local = if self.cfg.namespaces && self.g.chance(1, 8) {
+                        self.feat("prefixed-attr-with-local-part-xmlns");
+                        "xmlns".to_string()
+                    } else {
+                        ATTR_LOCALS[self.g.pick(ATTR_LOCALS.len())].to_string()
+                    };
+                    QN { prefix: Some(prefix), local }
                 }
                 _ => {
                     self.feat("xml-attr");
